@@ -8,6 +8,24 @@ sits behind `Air`, a fake contactless frontend whose `exchange()` lets a
 Memory map used: blocks 0..13 user, 14 REG, 0x80 RC, 0x81 MAC, 0x82 ID,
 0x83 D_ID, 0x84 SER_C, 0x85 SYS_C, 0x86 CKV, 0x87 CK, 0x88 MC and for Lite-S
 0x90 WCNT, 0x91 MAC_A, 0x92 STATE.
+
+The tag is STATEFUL (everything a sequence of authentications can depend on):
+
+* RC: the challenge block, any write to it starts a new session (the external authentication
+  status of a Lite-S falls back to 0);
+* WCNT (Lite-S): incremented by one by EVERY accepted write command, with or without MAC, of any
+  block (RC, MC, user blocks, STATE ...), saturating at FFFFFFh; a write with MAC_A is accepted only
+  when the MAC was computed over the CURRENT counter value and under the session key of the
+  CURRENT challenge;
+* STATE (Lite-S): EXT_AUTH becomes 1 by a MAC'ed write of 01h, is readable (with MAC);
+* MC: MC_SP_REG_ALL_RW (octets 0,1: block writable at all), MC_ALL (octet 2: system blocks
+  82h..88h locked when not FFh), and for Lite-S MC_CKCKV_W_MAC_A (octet 5: CK/CKV may still be written
+  with MAC_A when the system blocks are locked), MC_SP_REG_R_RESTR (6,7: read needs external
+  authentication), MC_SP_REG_W_RESTR (8,9: write needs external authentication),
+  MC_SP_REG_W_MAC_A (10,11: write needs MAC_A).
+
+`NfcVerif.AuthCard` (lean/NfcVerif/Model/AuthCard.lean) is the Lean mirror of `LiteTag.command`;
+the C20 check compares the two on every command of every history it runs.
 """
 from . import auth_des as D
 
@@ -15,13 +33,15 @@ IDM = bytes([0x01, 0x02, 0x03, 0x04, 0x05, 0x06, 0x07, 0x08])
 PMM_LITE = bytes([0x00, 0xF0, 0x00, 0x00, 0x02, 0x06, 0x03, 0x00])
 PMM_LITE_S = bytes([0x00, 0xF1, 0x00, 0x00, 0x02, 0x06, 0x03, 0x00])
 
+SYSTEM = [0x80, 0x82, 0x83, 0x84, 0x85, 0x86, 0x87, 0x88]
+
 
 class LiteTag(object):
     def __init__(self, ck_block=bytes(16), lite_s=False, idm=IDM):
         self.lite_s = lite_s
         self.idm = bytes(idm)
         self.pmm = PMM_LITE_S if lite_s else PMM_LITE
-        numbers = list(range(15)) + [0x80, 0x82, 0x83, 0x84, 0x85, 0x86, 0x87, 0x88]
+        numbers = list(range(15)) + SYSTEM
         if lite_s:
             numbers += [0x90, 0x92]
         self.b = {n: bytearray(16) for n in numbers}
@@ -56,8 +76,27 @@ class LiteTag(object):
     def system_locked(self):
         return self.b[0x88][2] != 0xFF
 
+    def mc_bit(self, octet, n):
+        """bit n (block number 0..14) of the 16-bit little-endian MC field starting at `octet`"""
+        return ((self.b[0x88][octet] | self.b[0x88][octet + 1] << 8) >> n) & 1
+
+    def bump_wcnt(self):
+        if self.lite_s:
+            w = min(D.le(self.b[0x90][0:3]) + 1, 0xFFFFFF)
+            self.b[0x90][0:3] = w.to_bytes(3, "little")
+
     def err(self, code, s1, s2):
         return bytes([12, code + 1]) + self.idm + bytes([s1, s2])
+
+    def ok(self, code):
+        return bytes([12, code + 1]) + self.idm + b"\x00\x00"
+
+    def digest(self):
+        """everything the behaviour depends on, for comparison with the Lean mirror"""
+        out = bytes([1 if self.rc_written else 0, self.ext_auth])
+        for n in list(range(15)) + SYSTEM + ([0x90] if self.lite_s else []):
+            out += bytes(self.b[n])
+        return out
 
     def command(self, cmd):
         cmd = bytes(cmd)
@@ -75,40 +114,45 @@ class LiteTag(object):
                     rsp += b"\x12\xFC" if (ndef and sc != b"\x88\xB4") else b"\x88\xB4"
                 return bytes([2 + len(rsp), 0x01]) + rsp
             return None
-        if len(cmd) < 13 or cmd[2:10] != self.idm:
+        if len(cmd) < 14 or cmd[2:10] != self.idm:
             return None
         if code not in (0x06, 0x08):
             return None
-        nsvc = cmd[10]
-        if nsvc != 1:
+        if cmd[10] != 1:
             return self.err(code, 0xFF, 0xA1)
         svc = cmd[11:13]
-        pos = 13
-        if len(cmd) <= pos:
-            return None
-        nblk = cmd[pos]
-        pos += 1
+        nblk = cmd[13]
+        pos = 14
         numbers = []
         for _ in range(nblk):
             if len(cmd) < pos + 2 or cmd[pos] != 0x80:
                 return self.err(code, 0xFF, 0xA8)
             numbers.append(cmd[pos + 1])
             pos += 2
+        rest = cmd[pos:]
         if code == 0x06:
-            if svc not in (b"\x0b\x00", b"\x09\x00") or not 1 <= nblk <= 4 or len(cmd) != pos:
-                return self.err(code, 0xFF, 0xA2)
-            data = b""
-            for i, n in enumerate(numbers):
-                if not self.readable(n):
-                    return self.err(code, 1 << i, 0xA8)
-                if n in (0x81, 0x91) and i != len(numbers) - 1:
-                    return self.err(code, 1 << i, 0xA8)
-                if n == 0x91:
-                    return self.err(code, 1 << i, 0xA8)     # MAC_A read is not used by the reader under test
-                data += self.read_block(n, data)
-            return bytes([13 + len(data), 0x07]) + self.idm + b"\x00\x00" + bytes([nblk]) + data
-        # write
-        data = cmd[pos:]
+            return self.read(svc, numbers, rest)
+        return self.write(svc, numbers, rest)
+
+    def read(self, svc, numbers, rest):
+        code, nblk = 0x06, len(numbers)
+        if svc not in (b"\x0b\x00", b"\x09\x00") or not 1 <= nblk <= 4 or len(rest) != 0:
+            return self.err(code, 0xFF, 0xA2)
+        data = b""
+        for i, n in enumerate(numbers):
+            if not self.readable(n):
+                return self.err(code, 1 << i, 0xA8)
+            if n in (0x81, 0x91) and i != nblk - 1:
+                return self.err(code, 1 << i, 0xA8)
+            if n == 0x91:
+                return self.err(code, 1 << i, 0xA8)         # MAC_A read is not used by the reader under test
+            if self.lite_s and n < 15 and self.mc_bit(6, n) and not self.ext_auth:
+                return self.err(code, 1 << i, 0xB1)         # read needs external authentication
+            data += self.read_block(n, data)
+        return bytes([13 + len(data), 0x07]) + self.idm + b"\x00\x00" + bytes([nblk]) + data
+
+    def write(self, svc, numbers, data):
+        code, nblk = 0x08, len(numbers)
         if svc != b"\x09\x00" or len(data) != 16 * nblk:
             return self.err(code, 0xFF, 0xA2)
         if nblk == 1:
@@ -117,47 +161,60 @@ class LiteTag(object):
                 return self.err(code, 0x01, 0xA8)
             if n >= 0x82 and self.system_locked():
                 return self.err(code, 0x01, 0xA8)
-            if n < 14 and not (self.b[0x88][0] | self.b[0x88][1] << 8) >> n & 1:
+            if n < 15 and not self.mc_bit(0, n):
                 return self.err(code, 0x01, 0xA8)
+            if self.lite_s and n < 15 and self.mc_bit(10, n):
+                return self.err(code, 0x01, 0xB2)            # this block takes writes with MAC_A only
+            if self.lite_s and n < 15 and self.mc_bit(8, n) and not self.ext_auth:
+                return self.err(code, 0x01, 0xB1)            # write needs external authentication
             self.b[n] = bytearray(data)
             if n == 0x80:
                 self.rc_written = True
                 self.ext_auth = 0
+            self.bump_wcnt()
             self.log.append((n, bytes(data)))
-            return bytes([12, 0x09]) + self.idm + b"\x00\x00"
+            return self.ok(code)
         if nblk == 2 and self.lite_s and numbers[1] == 0x91:
             n = numbers[0]
             d16, maca = data[0:16], data[16:32]
-            if not self.rc_written or not (n in self.b or n == 0x92) or n in (0x80, 0x81, 0x90):
+            if not self.rc_written or n not in self.b or n in (0x80, 0x90):
                 return self.err(code, 0x01, 0xA8)
+            if 0x82 <= n <= 0x88 and self.system_locked() and not (n in (0x86, 0x87) and self.b[0x88][5] & 1):
+                return self.err(code, 0x01, 0xA8)
+            if n < 15 and not self.mc_bit(0, n):
+                return self.err(code, 0x01, 0xA8)
+            if n < 15 and self.mc_bit(8, n) and not self.ext_auth:
+                return self.err(code, 0x01, 0xB1)
             if bytes(maca[8:11]) != bytes(self.b[0x90][0:3]) or bytes(maca[0:8]) != self.mac_a_write(n, d16):
-                return self.err(code, 0x02, 0xB2)            # MAC_A mismatch
-            w = D.le(self.b[0x90][0:3]) + 1
-            self.b[0x90][0:3] = w.to_bytes(3, "little")
+                return self.err(code, 0x02, 0xB2)            # MAC_A mismatch (stale counter, other session key ...)
             if n == 0x92:
                 self.ext_auth = 1 if d16[0] == 0x01 else 0
             else:
                 self.b[n] = bytearray(d16)
+            self.bump_wcnt()
             self.log.append((n, bytes(d16)))
-            return bytes([12, 0x09]) + self.idm + b"\x00\x00"
+            return self.ok(code)
         return self.err(code, 0xFF, 0xA2)
 
 
 class Air(object):
     """fake contactless frontend; `transit(direction, index, frame) -> frame | None` models the
-    attacker (direction 'c' command to the tag / 'r' response to the reader, None = frame lost)"""
+    attacker (direction 'c' command to the tag / 'r' response to the reader, None = frame lost).
+    `sent` keeps the commands as they left the reader, `trace` what reached the tag / the reader."""
 
     def __init__(self, tag, transit=None):
         self.tag = tag
         self.transit = transit
         self.n = 0
         self.trace = []
+        self.sent = []
 
     def exchange(self, cmd, timeout):
         import nfc.clf
         i = self.n
         self.n += 1
         cmd = bytes(cmd)
+        self.sent.append(cmd)
         if self.transit is not None:
             cmd = self.transit("c", i, cmd)
         rsp = None if cmd is None else self.tag.command(cmd)
